@@ -56,6 +56,10 @@ pub struct Sender {
     #[serde(with = "hexbytes")]
     pub payload: Vec<u8>,
     pub payload_spec: SourceSpec,
+    /// the payload source is an AsyncRead (IppPayload::new_async) instead of a Read (IppPayload::new), whichever
+    /// client sends it: both sync<->async bridges of the payload are exercised under both clients
+    #[serde(default)]
+    pub async_payload: bool,
 }
 
 #[derive(Clone, Debug, Serialize, Deserialize)]
@@ -117,7 +121,19 @@ pub fn gen_cfg(rng: &mut Rng, transport: Transport) -> ClientCfg {
     let nh = rng.usize(0, 4);
     let mut headers = Vec::new();
     for i in 0..nh {
-        let name = format!("x-sim-{}{}", gen_ascii(rng, 6), i);
+        // mostly private x- headers, sometimes registered request / representation headers that are NOT among the ones
+        // the clients set themselves (content-type, content-length, transfer-encoding, host, authorization,
+        // user-agent, accept, connection, expect)
+        let name = if rng.chance(1, 3) {
+            let n = *rng.pick(&["content-language", "content-disposition", "content-md5", "accept-language", "cache-control", "pragma", "cookie", "referer", "from", "x-requested-with", "if-match"]);
+            if headers.iter().any(|(k, _): &(String, String)| k == n) {
+                format!("x-sim-dup{i}")
+            } else {
+                n.to_string()
+            }
+        } else {
+            format!("x-sim-{}{}", gen_ascii(rng, 6), i)
+        };
         let mut val: String = (0..rng.usize(1, 20)).map(|_| *rng.pick(&['a', 'Z', '0', '9', '-', '_', '.', '=', ';', ' ', '/', '+'])).collect();
         val = val.trim().to_string();
         if val.is_empty() {
@@ -320,7 +336,8 @@ fn token_of(p: &Parsed) -> Option<String> {
 }
 
 impl C11 {
-    fn build_request(s: &Sender, reqid: u32, core: &Arc<SimCore>, is_async_payload: bool) -> (IppRequestResponse, Vec<u8>, SrcHandle) {
+    fn build_request(s: &Sender, reqid: u32, core: &Arc<SimCore>, _client_is_async: bool) -> (IppRequestResponse, Vec<u8>, SrcHandle) {
+        let is_async_payload = s.async_payload;
         let mut req = s.msg.build();
         req.header_mut().request_id = reqid;
         let src = SrcHandle::new(core, Arc::new(s.payload.clone()), s.payload_spec.clone());
@@ -710,11 +727,12 @@ impl Prop for C11 {
             let msg = gen_mmsg(rng, &shape);
             let max_payload = if rng.chance(1, big_den) { 1 << 20 } else { 4096 };
             let payload = if rng.chance(1, 4) { vec![] } else { gen_payload(rng, max_payload) };
-            let is_async_payload = client == ClientKind::Async;
+            // mostly the natural pairing, sometimes the crossed one
+            let is_async_payload = if rng.chance(1, 4) { client != ClientKind::Async } else { client == ClientKind::Async };
             let opts = TraceOpts { is_async: is_async_payload, eintr: rng.chance(1, 2), pend: rng.chance(1, 2), after: false, cross: true, max_events: 2048 };
             let pl = payload.len();
             let (_, trace) = gen_trace(rng, pl.min(1024), pl, &[], &opts);
-            senders.push(Sender { msg, payload, payload_spec: SourceSpec { trace, fault: None } });
+            senders.push(Sender { msg, payload, payload_spec: SourceSpec { trace, fault: None }, async_payload: is_async_payload });
             scripts.push(gen_script(rng, i as u32 + 1, &format!("tok-{}", i + 1), n == 1 || transport == Transport::Mem, transport));
         }
         if n > 1 {
